@@ -119,6 +119,8 @@ def generate(ctx):
                 raise Untranslatable("cg: assignment to %s outside subset" % nm, s.lineno, path)
         elif isinstance(s, ast.If):
             if u.startswith("if rk_norm_sq_new.abs().sqrt().mean() < self.tol:\n    break"):
+                # leaving the loop here must leave x and the residual of the same iteration behind
+                seen["exit_after"] = sorted(k for k in ("x", "r", "rr") if k in seen)
                 continue
             if u.startswith("if self.bk_update_type == 'FR':"):
                 fr = s.body[0]
@@ -137,6 +139,7 @@ def generate(ctx):
     out += D % "cg_rr" + "(r' : V) : K := %s.\n" % seen["rr"]
     out += D % "cg_beta_fr" + "(rr rr' : K) : K := %s.\n" % seen["beta_fr"]
     out += D % "cg_p" + "(r' p : V) (beta : K) : V := %s.\n" % seen["p"]
+    out += "Definition cg_exit_after : list nat := [%s]%%nat.  (* 0 = x, 1 = r, 2 = rr updated before the tolerance exit *)\n" % "; ".join(str(v) for v in sorted({"x": 0, "r": 1, "rr": 2}[k] for k in seen.get("exit_after", [])))
     return [pg.write_gen(ctx, "C19_gen", out)]
 
 
@@ -257,6 +260,17 @@ def oracles(ctx, deep):
                     add(Violation("cg-solves-normal-equations", "ConjGrad (%s) differs from the solution of (A*A + lambda I) x = A*y + lambda z (max diff %.3g, scale %.3g) for %s, lambda %s" % (rule, float((sol - ref).abs().max()), sc, cfg, float(lam)), {"config": cfg, "rule": rule, "lambda": float(lam)}, {"fn": "cg", "rule": rule}))
                 if float(r1) > float(r0) * (1 + 1e-4) + 1e-5:
                     add(Violation("cg-not-worse", "ConjGrad (%s) residual %.3g exceeds the starting residual %.3g for %s" % (rule, float(r1), float(r0), cfg), {"config": cfg, "rule": rule}, {"fn": "cg-worse", "rule": rule}))
+                # a coarse tolerance: the loop leaves through the tolerance exit, and what it returns must be the iterate whose
+                # residual met the tolerance (also when one step solves the system: full mask, normalised maps)
+                for tol in (1e-2, 1e-3):
+                    cgt = ConjGrad(fwd, bwd, num_iters=6 * h * w + 20, tol=tol, bk_update_type=rule)
+                    st = cgt(ym, S, mask, z, lam)
+                    rt = (rhs - Bm @ st.reshape(-1).double()).reshape(1, h, w, 2)
+                    res = float((rt**2).sum(-1).sqrt().mean())  # the quantity the exit test bounds (modulus of r.r per pixel)
+                    rs = float(((rt**2).sum()).sqrt())
+                    # the exit test is mean(sqrt|re <r,r>|, sqrt|im <r,r>|) = ||r|| / 2 < tol
+                    if rs > 2 * tol * 1.5 + 1e-4 * float(rhs.norm()) and float(r0) > 4 * tol:
+                        add(Violation("cg-tolerance-exit", "ConjGrad (%s, tol %g) returns an iterate with residual %.3g (start %.3g) for %s, lambda %s: the step that met the tolerance is missing" % (rule, tol, rs, float(r0), cfg, float(lam)), {"config": cfg, "rule": rule, "lambda": float(lam), "tol": tol}, {"fn": "cg-exit", "rule": rule}))
                 if not torch.allclose(Bm, Bm.T, atol=1e-4 * max(1.0, float(Bm.abs().max()))):
                     add(Violation("b-self-adjoint", "B = A*A + lambda I is not symmetric for %s" % cfg, {"config": cfg}, {"fn": "B_op"}))
         except Exception as e:  # noqa
